@@ -103,6 +103,9 @@ pub struct AbortCase {
     /// a print line and a status information (with receipt number) precede the abort
     #[serde(default)]
     pub after_status: bool,
+    /// the abort packet itself carries a receipt-number field (06 1E 04 <code> 87 nn nn)
+    #[serde(default)]
+    pub with_receipt: Option<u64>,
     /// a dangling pre-authorisation exists (needed for the dangling-reversal site)
     pub dangling: bool,
     pub terminal_id_differs: bool,
@@ -159,7 +162,7 @@ pub fn check_abort(c: &AbortCase) -> CheckResult {
         _ => 0,
     };
     // in `cancel`, the dangling reversal is the second PreAuthReversal: not a separate site (same code path as configure's)
-    sc.plan = vec![PlanEntry { kind: c.site, occ: Some(occ), from_start: false, directive: Directive { outcome: if c.after_status { Outcome::AbortAfterStatus(c.code) } else { Outcome::Abort(c.code) }, ..Default::default() } }];
+    sc.plan = vec![PlanEntry { kind: c.site, occ: Some(occ), from_start: false, directive: Directive { outcome: if let Some(rc) = c.with_receipt { Outcome::AbortWithReceipt(c.code, rc) } else if c.after_status { Outcome::AbortAfterStatus(c.code) } else { Outcome::Abort(c.code) }, ..Default::default() } }];
     let tr = guard(|| run_scenario(&sc)).map_err(|p| Violation::new("abort", format!("C20 op={} kind=harness-panic", c.op), p, input.clone()))?;
     if !tr.new_returned {
         return Ok(());
@@ -179,6 +182,7 @@ pub fn check_abort(c: &AbortCase) -> CheckResult {
     if c.site == Kind::PendingQuery && code == 0xb8 {
         return Ok(());
     }
+    // (with a receipt-number field the b8 answer of the pending query is the regular "this one is pending" reply)
     // documented translations
     if c.site == Kind::EndOfDay && code == 0xa0 {
         return match got {
@@ -239,12 +243,21 @@ pub fn run(tier: Tier) -> i32 {
                 // the abort may also come behind a print line and a status information (declined payment)
                 let status_site = matches!(site, Kind::Reservation | Kind::PartialReversal | Kind::PreAuthReversal | Kind::EndOfDay);
                 if status_site {
-                    let c2 = AbortCase { op: op.to_string(), site, code: code as u8, intermediates: inter, after_status: true, dangling, terminal_id_differs: tid };
+                    let c2 = AbortCase { op: op.to_string(), site, code: code as u8, intermediates: inter, after_status: true, with_receipt: None, dangling, terminal_id_differs: tid };
                     st.case(true, fnv(&serde_json::to_vec(&c2).unwrap()));
                     st.class(&format!("{op}/{site:?}:after-status-information"));
                     ctx.record(check_abort(&c2), st);
                 }
-                let c = AbortCase { op: op.to_string(), site, code: code as u8, intermediates: inter, after_status: false, dangling, terminal_id_differs: tid };
+                // the reversal / end-of-day family may put a receipt-number field into the abort packet itself
+                if matches!(site, Kind::PendingQuery | Kind::PartialReversal | Kind::PreAuthReversal | Kind::EndOfDay) && inter == 0 {
+                    for rc in [0xffffu64, 4711] {
+                        let c3 = AbortCase { op: op.to_string(), site, code: code as u8, intermediates: 0, after_status: false, with_receipt: Some(rc), dangling, terminal_id_differs: tid };
+                        st.case(true, fnv(&serde_json::to_vec(&c3).unwrap()));
+                        st.class(&format!("{op}/{site:?}:abort-with-receipt-field"));
+                        ctx.record(check_abort(&c3), st);
+                    }
+                }
+                let c = AbortCase { op: op.to_string(), site, code: code as u8, intermediates: inter, after_status: false, with_receipt: None, dangling, terminal_id_differs: tid };
                 st.case(true, fnv(&serde_json::to_vec(&c).unwrap()));
                 st.class(&format!("{op}/{site:?}"));
                 if code == 0x64 && inter == 1 {
@@ -262,7 +275,7 @@ pub fn run(tier: Tier) -> i32 {
             let strat = (0usize..SITES.len(), any::<u8>(), 0usize..6, any::<bool>());
             ctx.proptest(seed, 20_000, &strat, st, |(si, code, inter, dang), st| {
                 let (op, site, dangling, tid) = SITES[*si];
-                let c = AbortCase { op: op.to_string(), site, code: *code, intermediates: *inter, after_status: *inter % 2 == 1, dangling: dangling || *dang, terminal_id_differs: tid };
+                let c = AbortCase { op: op.to_string(), site, code: *code, intermediates: *inter, after_status: *inter % 2 == 1, with_receipt: if *inter % 3 == 2 { Some(*code as u64 * 7 % 9999) } else { None }, dangling: dangling || *dang, terminal_id_differs: tid };
                 st.case(true, fnv(&serde_json::to_vec(&c).unwrap()));
                 st.class("random");
                 check_abort(&c)
